@@ -50,6 +50,7 @@ pub fn cheat_name(c: &Cheat) -> &'static str {
 }
 
 pub fn c01(ctx: &mut Ctx) {
+    oods_binding(ctx);
     let scenario = "c01.byzantine";
     let n_runs: u64 = if ctx.is_quick() { 320 } else { 12_000 };
     for k in 0..n_runs {
@@ -103,4 +104,151 @@ pub fn c01(ctx: &mut Ctx) {
             ctx.violation(&format!("C01|forgery-accepted|{name}"), &format!("strategy {name} accepted: params {params:?}, truth {:?}", art.truth), rep);
         }
     }
+}
+
+// ------------------------------------------------------------------------------------------
+// OODS binding of the statement on the real layouts
+// ------------------------------------------------------------------------------------------
+//
+// No prover exists for the 7 real layouts, so the Byzantine prover here is the weakest useful one:
+// it takes a recorded honest run and changes the *statement* afterwards, keeping every prover
+// message and every challenge of the recorded run (i.e. it assumes it could steer the transcript).
+// The only thing left to stop it is the AIR itself: the out-of-domain check must fail when a field
+// the AIR binds (initial/final pc, initial/final ap, each builtin's first address, range-check
+// bounds, any public-memory cell, the padding cell) changes. Fields the AIR does not bind directly
+// (builtin stop pointers, which are bound through the memory argument) are not checked.
+
+use crate::image::{self, Fault};
+use crate::monitor::{self, Outcome};
+use crate::stone_loader;
+use starknet_crypto::Felt;
+use swiftness_air::domains::StarkDomains;
+use swiftness_air::layout::LayoutTrait;
+use swiftness_air::public_memory::PublicInput;
+use swiftness_stark::types::StarkProof;
+use swiftness_transcript::transcript::Transcript;
+
+fn oods_with_statement<L: LayoutTrait>(proof: &StarkProof, statement: &PublicInput) -> Outcome {
+    monitor::guarded(50_000_000, || {
+        let domains = StarkDomains::new(proof.config.log_trace_domain_size, proof.config.log_n_cosets);
+        // challenges of the recorded run (seeded by the ORIGINAL statement)
+        let digest = proof.public_input.get_hash(proof.config.n_verifier_friendly_commitment_layers);
+        let mut t = Transcript::new(digest);
+        let traces = L::traces_commit(&mut t, &proof.unsent_commitment.traces, proof.config.traces.clone());
+        let alpha = t.random_felt_to_prover();
+        let mut coeffs = Vec::with_capacity(L::N_CONSTRAINTS);
+        let mut c = Felt::ONE;
+        for _ in 0..L::N_CONSTRAINTS {
+            coeffs.push(c);
+            c *= alpha;
+        }
+        t.read_felt_from_prover(&proof.unsent_commitment.composition);
+        let z = t.random_felt_to_prover();
+        swiftness_stark::oods::verify_oods::<L>(
+            &proof.unsent_commitment.oods_values,
+            &traces.interaction_elements,
+            statement,
+            &coeffs,
+            &z,
+            &domains.trace_domain_size,
+            &domains.trace_generator,
+        )
+    })
+    .outcome
+}
+
+pub fn oods_binding(ctx: &mut Ctx) {
+    let scenario = "c01.oods-binding";
+    let mut unit = 5_000_000u64;
+    for path in stone_loader::shipped_proof_paths() {
+        let l = match stone_loader::load_file(&path) {
+            Ok(l) => l,
+            Err(e) => ctx.harness_error(&format!("{path}: {e}")),
+        };
+        // the OODS check does not involve the commitment hash; the Stone version only changes the
+        // seed, which is recomputed by this build for the original statement: every file is usable
+        let proof: StarkProof = serde_json::from_value(l.proof.clone()).unwrap();
+        let layout = l.layout.clone();
+        let pi_img = l.proof["public_input"].clone();
+        let short = path.trim_start_matches("/repo/examples/proofs/").to_string();
+        let run = |pi: &PublicInput| -> Outcome { crate::with_layout!(layout.as_str(), oods_with_statement, &proof, pi) };
+        // zero-fault: the recorded statement passes (only meaningful when this build computes the
+        // same seed as the prover did, i.e. same Stone version)
+        let same_stone = l.stone6 == (proofrun::variant_stone() == "stone6");
+        if !same_stone {
+            continue;
+        }
+        if ctx.mine(unit) {
+            let o = run(&proof.public_input);
+            ctx.stats.evaluations += 1;
+            if !o.is_accept() {
+                let rep = replay_envelope("C01", scenario, &ctx.variant, json!({"call": "oods-binding", "file": path, "faults": [], "expect": "ok"}));
+                ctx.violation(&format!("C01|oods-binding|honest-rejected|{layout}"), &format!("{short}: the recorded statement fails the out-of-domain check: {}", o.describe()), rep);
+            }
+        }
+        unit += 1;
+        // bound fields
+        let n_seg = pi_img["segments"].as_array().map(|a| a.len()).unwrap_or(0);
+        let mut faults: Vec<(String, Fault)> = Vec::new();
+        let plus1 = |p: &str| -> Option<Fault> {
+            let v = image::felt_of(image::get(&pi_img, &image::parse_path(p))?)?;
+            Some(Fault::Set { path: p.to_string(), value: image::felt_hex(&(v + Felt::ONE)) })
+        };
+        for (k, p) in [("initial-pc", "segments[0].begin_addr"), ("final-pc", "segments[0].stop_ptr"), ("initial-ap", "segments[1].begin_addr"), ("final-ap", "segments[1].stop_ptr"), ("rc-min", "range_check_min"), ("rc-max", "range_check_max"), ("padding-addr", "padding_addr"), ("padding-value", "padding_value")] {
+            if let Some(f) = plus1(p) {
+                faults.push((k.to_string(), f));
+            }
+        }
+        for s in 2..n_seg {
+            // segment 2 is the output: its first address is not an AIR global value
+            if s == 2 {
+                continue;
+            }
+            if let Some(f) = plus1(&format!("segments[{s}].begin_addr")) {
+                faults.push((format!("builtin-begin:{s}"), f));
+            }
+        }
+        let n_cells = pi_img["main_page"].as_array().map(|a| a.len()).unwrap_or(0);
+        let mut rng = Rng::derive(ctx.seed, scenario, unit);
+        for _ in 0..6 {
+            let i = rng.usize_below(n_cells);
+            if let Some(f) = plus1(&format!("main_page[{i}].value")) {
+                faults.push(("memory-value".into(), f));
+            }
+            if let Some(f) = plus1(&format!("main_page[{i}].address")) {
+                faults.push(("memory-address".into(), f));
+            }
+        }
+        for (kind, f) in faults {
+            let mine = ctx.mine(unit);
+            unit += 1;
+            if !mine {
+                continue;
+            }
+            ctx.begin_run(scenario, unit);
+            let Some(img) = proofrun::apply_faults(&pi_img, std::slice::from_ref(&f)) else { continue };
+            let Ok(pi) = serde_json::from_value::<PublicInput>(img) else { continue };
+            let o = run(&pi);
+            ctx.stats.evaluations += 1;
+            ctx.stats.fired(&format!("statement-after-proof:{}", kind.split(':').next().unwrap()));
+            ctx.stats.state(format!("{layout}|oods-binding|{kind}|{}", o.class()));
+            if o.is_accept() {
+                let rep = replay_envelope("C01", scenario, &ctx.variant, json!({"call": "oods-binding", "file": path, "faults": [f], "expect": "not_ok"}));
+                ctx.violation(&format!("C01|oods-binding|unbound|{layout}|{kind}"), &format!("{short}: with every prover message and challenge of the recorded run kept, changing {} of the statement still passes the out-of-domain check: the AIR does not bind it", f.path()), rep);
+            }
+        }
+    }
+}
+
+pub fn replay_oods_binding(rep: &serde_json::Value) -> Result<(bool, String), String> {
+    let l = stone_loader::load_file(rep["file"].as_str().ok_or("file")?)?;
+    let proof: StarkProof = serde_json::from_value(l.proof.clone()).map_err(|e| e.to_string())?;
+    let faults: Vec<Fault> = serde_json::from_value(rep["faults"].clone()).map_err(|e| e.to_string())?;
+    let pi_img = l.proof["public_input"].clone();
+    let img = if faults.is_empty() { pi_img } else { proofrun::apply_faults(&pi_img, &faults).ok_or("faults do not apply")? };
+    let pi: PublicInput = serde_json::from_value(img).map_err(|e| e.to_string())?;
+    let layout = l.layout.clone();
+    let o: Outcome = crate::with_layout!(layout.as_str(), oods_with_statement, &proof, &pi);
+    let violated = if rep["expect"].as_str() == Some("ok") { !o.is_accept() } else { o.is_accept() };
+    Ok((violated, o.describe()))
 }
